@@ -171,6 +171,20 @@ func runC16(seed int64, tier string, sc *Script, withBody bool) map[string]any {
 		sc.NonTrivial()
 		sc.Def("au new")
 		cacheKind := ci % 2 // 0: shared cache, 1: no cache
+		// every fifth case: the single-context cache, used the way it is meant to be - one
+		// registry, one scope set - where it must behave exactly like the shared cache
+		single := !withBody && ci%5 == 4
+		if single {
+			cacheKind = 0
+		}
+		fixedHost := 1 + rng.Intn(3)
+		var fixedHints, fixedChal []string
+		for k := 0; k < rng.Intn(3); k++ {
+			fixedHints = append(fixedHints, scopePool[rng.Intn(len(scopePool))])
+		}
+		for k := 0; k < 1+rng.Intn(2); k++ {
+			fixedChal = append(fixedChal, scopePool[rng.Intn(len(scopePool))])
+		}
 		// credentials per host
 		type credSpec struct{ pw, rt, at bool }
 		creds := map[string]credSpec{}
@@ -202,6 +216,10 @@ func runC16(seed int64, tier string, sc *Script, withBody bool) map[string]any {
 		if cacheKind == 0 {
 			client.Cache = auth.NewCache()
 		}
+		if single {
+			client.Cache = auth.NewSingleContextCache()
+			sc.Count("cache:single-context")
+		}
 		client.ForceAttemptOAuth2 = rng.Intn(3) == 0
 		keyNum := map[string]int{}
 		keyOf := func(scopes []string) int {
@@ -217,11 +235,14 @@ func runC16(seed int64, tier string, sc *Script, withBody bool) map[string]any {
 		tokSeq := 100 * (ci + 1)
 		for step := 0; step < 12; step++ {
 			h := 1 + rng.Intn(3)
-			host := hosts[h]
 			var hints []string
 			for k := 0; k < rng.Intn(3); k++ {
 				hints = append(hints, scopePool[rng.Intn(len(scopePool))])
 			}
+			if single {
+				h, hints = fixedHost, fixedHints
+			}
+			host := hosts[h]
 			ctx := context.Background()
 			if len(hints) > 0 {
 				ctx = auth.WithScopesForHost(ctx, host, hints...)
@@ -239,6 +260,9 @@ func runC16(seed int64, tier string, sc *Script, withBody bool) map[string]any {
 				var chal []string
 				for k := 0; k < 1+rng.Intn(2); k++ {
 					chal = append(chal, scopePool[rng.Intn(len(scopePool))])
+				}
+				if single {
+					chal = append([]string(nil), fixedChal...)
 				}
 				if rng.Intn(3) == 0 {
 					chal = append(chal, chal[0]) // duplicated scope in the challenge
@@ -288,7 +312,24 @@ func runC16(seed int64, tier string, sc *Script, withBody bool) map[string]any {
 			if len(net.out) > 0 {
 				outStr = strings.Join(net.out, " ")
 			}
-			if withBody {
+			if single {
+				// the single-context cache falls back to a per-registry entry, so which attempt
+				// carries a cached token differs from the modelled cache; what the property bounds
+				// does not: at most three sends to the registry and one token fetch per request
+				sends, fetches := 0, 0
+				for _, o := range net.out {
+					if strings.HasSuffix(o, ":F") {
+						fetches++
+					} else {
+						sends++
+					}
+				}
+				v := "within"
+				if sends > 3 || fetches > 1 {
+					v = fmt.Sprintf("over(sends=%d,fetches=%d)", sends, fetches)
+				}
+				sc.Op(v, "au bound cache=single out=%s", strings.ReplaceAll(outStr, " ", ","))
+			} else if withBody {
 				if cacheKind != 0 {
 					sc.Def("au new")
 				}
